@@ -701,6 +701,7 @@ def check_pass(case, cc, dev, desc, fmt, sel, p, requested, reduction, nm, s, te
             sig = SIG_LIS_RUN
         dev(O_ROWS, sig, '%s: row %d has %d tokens for %d columns (width %d): %r' % (where, f, len(tok_rows[f]), len(cols_idx), case['width'], tok_rows[f][:8]))
     written = None          # frame index of every written row, when it can be told
+    x_unassigned = False
     if sel[0] == 'slice':
         if len(tok_rows) != len(exp):
             form, _last = slice_last_form(sel, n)
@@ -719,6 +720,7 @@ def check_pass(case, cc, dev, desc, fmt, sel, p, requested, reduction, nm, s, te
             written = sample_assignment(p, cols_idx, tok_rows, red)
             if written is None and fmt == 'LIS' and p['implied_x']:
                 written = sample_assignment(p, cols_idx, tok_rows, red, skip_x=True)
+                x_unassigned = written is not None
             if written is None:
                 # rows that cannot be matched in increasing order: say whether the first row is frame 0
                 if not rows_match(p, [0], cols_idx, tok_rows[:1], red):
@@ -732,6 +734,12 @@ def check_pass(case, cc, dev, desc, fmt, sel, p, requested, reduction, nm, s, te
     if written is not None and rows_ok:
         for i, (f, row) in enumerate(zip(written, tok_rows)):
             for tok, k in zip(row, cols_idx):
+                if k == 0 and x_unassigned:
+                    # the rows of this sample were matched to source frames by their channel values only (the implied X
+                    # column did not fit any increasing assignment, which is what the known C06 error produces): the
+                    # frame a row came from is then not certain enough to judge its X value
+                    cc.cls('lis-sample-x-not-judged')
+                    continue
                 extra = p['x_allow'][f] if k == 0 else Fraction(0)
                 sig, ref = token_devs(tok, p['cols'][k][f], None if p['alts'][k] is None else p['alts'][k][f], red, p['dtypes'][k], extra)
                 if not sig:
